@@ -192,8 +192,17 @@ inline usize hash(const Key& k)
 int Debug::printf(const char*, ...) { return 0; }
 
 // fresh allocations are poisoned: a read of an uninitialised link / bucket cell is recognisable
+// a member that keeps allocating within ONE op line (a loop over a list that grows under it) is stopped here: reported as a
+// crash on that op line instead of exhausting the machine
+static usize g_opBytes = 0;
 void* operator new[](usize size)
 {
+  g_opBytes += size;
+  if(g_opBytes > ((usize)16 << 20))
+  {
+    fputs("harness: more than 16 MB allocated within one op line (runaway loop)\n", stderr);
+    abort();
+  }
   void* p = malloc(size ? size : 1);
   memset(p, 0xAA, size);
   return p;
@@ -386,6 +395,12 @@ template<class C> static void observeTable(C& c)
       const typename C::Iterator cn = i;
       typename C::Iterator pv = --cn;
       if(pv != ci) { okConst = false; break; }
+      // `operator->` designates what `operator*` designates; a default-constructed iterator is assignable and differs from every position
+      if((const void*)ci.operator->() != (const void*)&*ci) { okConst = false; break; }
+      typename C::Iterator z;
+      if(z == ci || !(z != ci)) { okConst = false; break; }
+      z = ci;
+      if(z != ci || !(z == ci)) { okConst = false; break; }
     }
     if(!okConst) printf(" CONST-ITER-MISMATCH");
   }
@@ -554,6 +569,7 @@ int main()
   {
     long res = -1;
     bool ok;
+    g_opBytes = 0;
     if(hxIs(l, "reset", 0)) { configure(0, 0, 6); observe(-1); continue; }
     if(hxIs(l, "origin", 1)) { g_origin = (int)hxNum(l, 1); observe(-1); continue; }
     if(hxIs(l, "cfg", 3))
